@@ -27,7 +27,7 @@ package codec
 
 //@ func (w *rlpWriter) writeAll(b) (err)
 //@   arith bv
-//@   pure
+//@   modifies ghost(w_arr), ghost(w_len)
 //@   requires w != nil && w.writer != nil && outRoom() && len(b) < 0x1000000000000000
 //@   ensures [appended] err == nil ==> ghost(w_len) == old(ghost(w_len)) + len(b) && outHas(old(ghost(w_len)), b)
 //@   ensures [prefix] outKeeps(old(ghost(w_len))) && ghost(w_len) >= old(ghost(w_len)) && ghost(w_len) <= old(ghost(w_len)) + len(b)
@@ -41,7 +41,7 @@ package codec
 //@ func (w *rlpWriter) writeBytes(b) (err)
 //@   arith bv
 //@   opt nomerge
-//@   pure
+//@   modifies ghost(w_arr), ghost(w_len)
 //@   requires w != nil && w.writer != nil && outSane() && len(b) < 0x1000000000000000
 //@   requires len(nullSequence) == 2 && nullSequence[0] == 0xf8 && nullSequence[1] == 0
 //@   ensures [prefix] outKeeps(old(ghost(w_len)))
@@ -57,7 +57,7 @@ package codec
 //@ func (w *rlpWriter) writeList(b) (err)
 //@   arith bv
 //@   opt nomerge
-//@   pure
+//@   modifies ghost(w_arr), ghost(w_len)
 //@   requires w != nil && w.writer != nil && outSane() && len(b) < 0x1000000000000000
 //@   ensures [prefix] outKeeps(old(ghost(w_len)))
 //@   ensures [short] err == nil && len(b) <= 55 ==> ghost(w_len) == old(ghost(w_len)) + 1 + len(b) && outAt(old(ghost(w_len))) == byte(0xc0 + len(b)) && outHas(old(ghost(w_len)) + 1, b)
